@@ -13,8 +13,8 @@ from . import c01
 
 ID = "C03"
 THREADS = True       # part of the cases run concurrently in threads of one interpreter (the schedule dimension)
-MODULES = ["TWV.Properties.C03", "TWV.Tie.Vector", "TWV.Tie.MatchFlow"]
-TRANSLATORS = ["t3_vector", "t11_match"]
+MODULES = ["TWV.Properties.C03", "TWV.Tie.Vector", "TWV.Tie.MatchFlow", "TWV.Tie.WeaverStep"]
+TRANSLATORS = ["t3_vector", "t11_match", "t9_weaver"]
 RULE = ("(a) the C01 generator (reference matching: n 3..60, three fixed-point modes, 2x2 rules, integer and table exponents) "
         "with the displacement-profile oracle and a second matching pass (idempotence); (b) the stretching kernel alone on "
         "rational grids of <= 8 points from a small lattice (thorough: every increasing grid of 3..6 points over {0..7}/2 "
